@@ -120,7 +120,7 @@ impl DateDuration {
         // 3. Let later be ? CalendarDateAdd(plainRelativeTo.[[Calendar]], plainRelativeTo.[[ISODate]], yearsMonthsWeeksDuration, constrain).
         let later = relative_to.add(
             &Duration {
-                date: *self,
+                date: ymw_duration,
                 time: Default::default(),
             },
             Some(ArithmeticOverflow::Constrain),
